@@ -12,6 +12,8 @@ EXPLANATION = 'class invariant (engaged <=> ptr_==buf_ <=> storage holds a live 
 F = 'dispenso/detail/op_result.h'
 CLS = r'class\s+OpResult\s*(?=\{)'
 COMMON = [('R11', r'&oth\s*==\s*this', 'oth == self'),
+          ('R17', r'(?<![\w.>])emplace\(std::move\(\*oth\.ptr_\)\)', 'OpResult_emplace(self, T_move_from(oth->ptr_))'),
+          ('R17', r'(?<![\w.>])emplace\(\*oth\.ptr_\)', 'OpResult_emplace(self, T_read(oth->ptr_))'),
           ('R11', r'return\s+\*this\s*;', 'return self;'),
           ('R17', r'(?<![\w.>])oth\s*\?', 'OpResult_has(oth) ?'),
           ('R17', r'\bif\s*\(oth\)', 'if (OpResult_has(oth))'),
@@ -42,8 +44,8 @@ def build(ctx):
          extra=[('R12', r'new\s*\(buf_\)\s*T\(std::forward<U>\(u\)\)', 'T_construct_at(&self->buf_, u)', 1)])
     emit('OpResult_ctor_copy', r'OpResult\(const\s+OpResult<T>&\s*oth\)\s*(?=:)', ctor=True, must=['R12', 'R17'])
     emit('OpResult_ctor_move', r'OpResult\(OpResult<T>&&\s*oth\)\s*(?=:)', ctor=True, must=['R12', 'R17', 'R8'])
-    emit('OpResult_assign_copy', r'OpResult&\s+operator=\(const\s+OpResult&\s*oth\)', must=['R12', 'R17', 'R11'])
-    emit('OpResult_assign_move', r'OpResult&\s+operator=\(OpResult&&\s*oth\)', must=['R12', 'R17', 'R11'])
+    emit('OpResult_assign_copy', r'OpResult&\s+operator=\(const\s+OpResult&\s*oth\)', must=['R17', 'R11'])
+    emit('OpResult_assign_move', r'OpResult&\s+operator=\(OpResult&&\s*oth\)', must=['R17', 'R11'])
     emit('OpResult_dtor', r'~OpResult\(\)', must=['R12'])
     emit('OpResult_emplace', r'T&\s+emplace\(Args&&\.\.\.\s*args\)', must=['R12'],
          extra=[('R12', r'new\s*\(buf_\)\s*T\(std::forward<Args>\(args\)\.\.\.\)', 'T_construct_at(&self->buf_, args)', 1),
@@ -57,5 +59,6 @@ def build(ctx):
     for fn, kind in (('OpResult_ctor_default', None), ('OpResult_ctor_value', None), ('OpResult_ctor_copy', 'copy_ctor'), ('OpResult_ctor_move', 'move_ctor'),
                      ('OpResult_assign_copy', 'copy_assign'), ('OpResult_assign_move', 'move_assign'), ('OpResult_dtor', 'dtor'), ('OpResult_emplace', 'emplace'),
                      ('OpResult_has_value', None), ('OpResult_bool', None), ('OpResult_value', None)):
-        units.append(Unit(fn.replace('OpResult_', 'OpResult::'), 'cbmc', S, fn, expect=[r'postcondition'], replay=rp(kind) if kind else None, timeout=120))
+        units.append(Unit(fn.replace('OpResult_', 'OpResult::'), 'cbmc', S, fn, expect=[r'postcondition'], replay=rp(kind) if kind else None, timeout=120,
+                          replace=['OpResult_emplace'] if 'assign' in fn else []))
     return units
